@@ -740,6 +740,22 @@ def idwidth(pid):
     return run
 
 
+def _after_write_all(ctx, f, node, val):
+    """node lies behind the Ok outcome of a write_all whose data is a slice `[..val]` (or `[a..a+val]`) of the buffer."""
+    v = view(ctx, f)
+    pr = Prov(f)
+    for bb, c in v.calls.items():
+        if not c.name.endswith("write_all") or len(c.term["args"]) < 2 or "io_write" not in ctx.cg.call_effects(c):
+            continue
+        data = pr.operand(c.term["args"][1])
+        if ("RangeTo::RangeTo(%s)" % val) not in data and ("len(%s)" % val) not in data:
+            continue
+        oks = v.ok_nodes(bb)
+        if oks and node not in v.pg.reach([v.pg.entry()], set(oks)):
+            return True
+    return False
+
+
 def written(pid):
     """R-WRITTEN: a `Write::write` of the layers below the stream handle (Sector, Chain, MiniChain) answers Ok(n) with
     the n the layer below it reported for a write it actually made (or Ok(0) for an empty buffer).  An Ok(n) computed
@@ -762,6 +778,9 @@ def written(pid):
                         val = pr.operand(st["rv"]["ops"][0])
                         if re.match(r"^const:0", val) or re.search(r"::write\(|Write::write\(|write_all\(", val):
                             res.ok({"function": f.path, "line": st["span"]["line"], "count": val[:70]}, nontrivial=True)
+                        elif _after_write_all(ctx, f, ("s", bb, i), val):
+                            # `inner.write_all(&buf[..n])?; Ok(n)`: the whole slice was written, or the call failed
+                            res.ok({"function": f.path, "line": st["span"]["line"], "count": val[:70], "after": "write_all of a slice of that length"}, nontrivial=True)
                         else:
                             res.fail(Finding(res.rule, "R-WRITTEN/%s/count-not-from-a-write" % f.path, "%s can answer Ok(%s), a count that no write call of the layer below reported: bytes are claimed as written on a path that wrote nothing" % (f.path.split("::")[-2] if "::" in f.path else f.path, val[:80]), f, st["span"]))
         res.floor("Ok returns of the lower layers' write", n, ctx.table("floors").get("written_oks", 0))
